@@ -468,11 +468,39 @@ def body_item(body, declared, fn, fn_line):
             "fn": fn, "fn_line": fn_line, "names": names}
 
 
-def str_usage(name, node, saturating=False):
+def is_ident_char(c):
+    """Rust: c.is_alphanumeric() || c == '_'"""
+    return c == "_" or c.isalnum()
+
+
+def str_usage(name, node, raw_lines_b, saturating=False):
+    """analyzer.rs string_usage_span (since fix d199d81): the occurrence of the name on the
+    literal's first line, behind the opening quote, that is not part of a longer identifier;
+    otherwise the literal minus one column at either end."""
+    lb = raw_lines_b[node.lineno - 1]
+    src_b = lb[node.col_offset:node.end_col_offset] if node.end_lineno == node.lineno else lb[node.col_offset:]
+    try:
+        src = src_b.decode("utf-8")
+    except UnicodeDecodeError:
+        src = None
+    if src is not None and name:
+        qs = [i for i in (src.find('"'), src.find("'")) if i >= 0]
+        frm = (min(qs) + 1) if qs else 0
+        while frm <= len(src):
+            k = src.find(name, frm)
+            if k < 0:
+                break
+            before_ok = k == 0 or not is_ident_char(src[k - 1])
+            after = src[k + len(name):k + len(name) + 1]
+            after_ok = after == "" or not is_ident_char(after)
+            if before_ok and after_ok:
+                start = node.col_offset + len(src[:k].encode("utf-8"))
+                return {"k": "use", "name": name, "line": node.lineno, "start": start, "end": start + len(name.encode("utf-8"))}
+            frm = k + len(name)
     start = node.col_offset + 1
     end = node.end_col_offset - 1
     if end < 0:
-        end = 0 if saturating else -1  # usize underflow = panic in debug; never produced
+        end = 0
     return {"k": "use", "name": name, "line": node.lineno, "start": start, "end": end}
 
 
@@ -484,6 +512,7 @@ def extract(text: str, stdlib):
     except (SyntaxError, ValueError, RecursionError):
         return {"ok": False, "lines": lines, "modnames": [], "items": [], "edges": []}
     lines_b = [l.encode("utf-8") for l in lines]
+    raw_lines_b = [l.encode("utf-8") for l in text.split("\n")]
     items = []
     modnames = set()
 
@@ -514,15 +543,15 @@ def extract(text: str, stdlib):
                                       "autouse": False})
             if any(isinstance(t, ast.Name) and t.id == "pytestmark" for t in st.targets):
                 for (n, node) in usefixtures_from_expr(st.value):
-                    items.append(str_usage(n, node, True))
+                    items.append(str_usage(n, node, raw_lines_b, True))
         if isinstance(st, ast.AnnAssign):
             if isinstance(st.target, ast.Name) and st.target.id == "pytestmark" and st.value is not None:
                 for (n, node) in usefixtures_from_expr(st.value):
-                    items.append(str_usage(n, node, True))
+                    items.append(str_usage(n, node, raw_lines_b, True))
         if isinstance(st, ast.ClassDef):
             for d in st.decorator_list:
                 for (n, node) in usefixtures_names(d):
-                    items.append(str_usage(n, node))
+                    items.append(str_usage(n, node, raw_lines_b))
             for s in st.body:
                 visit(s)
             return
@@ -531,10 +560,10 @@ def extract(text: str, stdlib):
         fn = st.name
         for d in st.decorator_list:
             for (n, node) in usefixtures_names(d):
-                items.append(str_usage(n, node))
+                items.append(str_usage(n, node, raw_lines_b))
         for d in st.decorator_list:
             for (n, node) in indirect_fixtures(d):
-                items.append(str_usage(n, node))
+                items.append(str_usage(n, node, raw_lines_b))
         dec = next((d for d in st.decorator_list if is_fixture_decorator(d)), None)
         args = all_args(st.args)
         if dec is not None:
